@@ -8,6 +8,9 @@ Case grammar sent to `drv_serial`:
     DICT <val>                           the whole `to_dict()`: val := V <k> <k value tokens>  |  [ <val>* ]  |  { { K <name> <val> }* }
     LEAF <absolute offset> <field type tokens> | <value tokens of the to_dict entry>        one per leaf field
     B0 <hex of the original message>
+    FTOK <float bits, hex> <token>       what Python's `json` writes for that float (`float.__repr__`, NaN, Infinity, -Infinity)
+    JMIN / JPRETTY <hex of the text>     `to_json(minify=True)` / `to_json()` of the message data
+    HDESC <desc> / HB <hex> / HJMIN / HJPRETTY <hex of the text>     the header class, a header, `Message(header, data).to_json`
     FD <probe> <hex of from_dict(v) | err> <val>     `from_dict` on the dictionary itself (`self`), on what json.loads
                                          gives back (`json`), and on altered ones (strings as lists of characters, a key
                                          missing, a struct-array list too short / too long, a value of the wrong shape)
@@ -245,6 +248,38 @@ def _trip(fn) -> str:
         return "err:" + type(e).__name__
 
 
+def run_timecode_case(cid: str, cls, m) -> List[str]:
+    """header-plus-data JSON and the dict round trip of the header when the header class is the time-code variant
+    (a case of its own: the driver reports the first false clause of a case only)"""
+    from pyrtma.message import Message, get_header_cls
+    W = VC.world()
+    W.V._VALIDATION_ENABLED.set(True)
+    hc = get_header_cls(True)
+    h = hc()
+    h.msg_type, h.num_data_bytes, h.src_mod_id, h.dest_mod_id = cls.type_id, ctypes.sizeof(cls), 11, 7
+    h.msg_count, h.send_time, h.version = 3, 0.25, cls.type_hash
+    h.utc_seconds, h.utc_fraction = 1700000000, 123456
+    hb = bytes(h)
+    lines = [f"SER {cid}", "B0 " + VC.hx(bytes(m))]
+
+    def whole(minify):
+        r = Message.from_json(Message(h, m).to_json(minify=minify))
+        if type(r.header) is not hc or bytes(r.header) != hb:
+            raise AssertionError("header differs")
+        return r.data
+
+    def hdr_dict():
+        r = hc.from_dict(h.to_dict())
+        if bytes(r) != hb:
+            raise AssertionError("header differs")
+        return m
+    lines.append("RT message_json_timecode_header " + _trip(lambda: whole(False)))
+    lines.append("RT message_json_minified_timecode_header " + _trip(lambda: whole(True)))
+    lines.append("RT dict_of_timecode_header " + _trip(hdr_dict))
+    lines += ["COPY 0", "END"]
+    return lines
+
+
 def run_case(cid: str, cls, m) -> List[str]:
     W = VC.world()
     from pyrtma.message import Message, get_header_cls, _msg_defs
@@ -256,6 +291,32 @@ def run_case(cid: str, cls, m) -> List[str]:
     d = m.to_dict()
     lines.append("DESC " + " ".join(desc_tokens(W, cls)))
     lines.append("DICT " + " ".join(val_tokens(W, d)))
+    ftoks: Dict[int, str] = {}
+
+    def collect(x):
+        if isinstance(x, float):
+            ftoks[VC.f2b(x)] = json.dumps(x)
+        elif isinstance(x, dict):
+            for v in x.values():
+                collect(v)
+        elif isinstance(x, (list, tuple)):
+            for v in x:
+                collect(v)
+    collect(d)
+    lines.append("JMIN " + VC.hx(m.to_json(minify=True).encode("ascii")))
+    lines.append("JPRETTY " + VC.hx(m.to_json().encode("ascii")))
+    if isinstance(m, MessageData) and _msg_defs.get(getattr(cls, "type_id", None)) is cls:
+        hc0 = get_header_cls()
+        h0 = hc0()
+        h0.msg_type, h0.num_data_bytes, h0.src_mod_id, h0.dest_mod_id = cls.type_id, ctypes.sizeof(cls), 11, 7
+        h0.msg_count, h0.send_time, h0.recv_time, h0.version = 3, 0.1, 1e22, cls.type_hash
+        collect(h0.to_dict())
+        lines.append("HDESC " + " ".join(desc_tokens(W, hc0)))
+        lines.append("HB " + VC.hx(bytes(h0)))
+        lines.append("HJMIN " + VC.hx(Message(h0, m).to_json(minify=True).encode("ascii")))
+        lines.append("HJPRETTY " + VC.hx(Message(h0, m).to_json().encode("ascii")))
+    for bits, tok in sorted(ftoks.items()):
+        lines.append(f"FTOK {bits:016x} {tok}")
     for path, name, fty, off in leaves(W, cls):
         lines.append(f"LEAF {off} {VC.tok_fty(fty)} | {VC.tok_val(canon_val(W, dict_leaf(d, path, name)))}")
     lines.append("B0 " + VC.hx(b0))
